@@ -143,6 +143,23 @@ class TAff(Term):
                 self.src.key() if isinstance(self.src, Term) else repr(self.src))
 
 
+def _cache_keys():
+    # terms are immutable: cache the structural key (hashing a deep term recomputed it at every set/dict operation)
+    for cls in (TInt, TId, TMem, TOp, TCond, TSlice, TCompose, TAff):
+        raw = cls.key
+
+        def cached(self, _raw=raw):
+            k = self.__dict__.get('_k')
+            if k is None:
+                k = _raw(self)
+                self.__dict__['_k'] = k
+            return k
+        cls.key = cached
+
+
+_cache_keys()
+
+
 def show(t):
     if not isinstance(t, Term):
         return repr(t)
